@@ -1,1 +1,261 @@
+(** Bounded part of C13: for all lattice shapes r x c with 1 <= r, c <= 6 the relation set R and the
+    loop-product statements hold.  One [vm_compute] over the 36 shapes (forallb ... = true), lifted
+    to Prop-level statements with forallb_forall, and to matrices with C09's theorems.
+    Everything in this file that carries the bound is named [..._bounded]. *)
 From Qib Require Export Compact.CompactProofs.
+Local Open Scope Z_scope.
+
+Lemma sweep_upto_6 : forallb shape_ok (shapes_upto 6) = true.
+Proof. vm_compute. reflexivity. Qed.
+
+(* ------------------------------------------------------------------------------------ *)
+(** * membership in the enumerations *)
+
+Lemma zrange_in n x : 0 <= x < n -> In x (zrange n).
+Proof.
+  intros H. unfold zrange. replace x with (Z.of_nat (Z.to_nat x)) by lia.
+  apply in_map. apply in_seq. lia.
+Qed.
+Lemma zrange_in_inv n x : In x (zrange n) -> 0 <= x < n.
+Proof. unfold zrange. intros H. apply in_map_iff in H. destruct H as [k [<- H]]. apply in_seq in H. lia. Qed.
+
+Lemma coords_in r c x y : 0 <= x < r -> 0 <= y < c -> In (x, y) (coords r c).
+Proof.
+  intros Hx Hy. unfold coords. apply in_flat_map. exists x. split; [apply zrange_in; exact Hx|].
+  apply in_map. apply zrange_in. exact Hy.
+Qed.
+
+Lemma dedges_in r c ix iy jx jy :
+  0 <= ix < r -> 0 <= iy < c -> 0 <= jx < r -> 0 <= jy < c -> is_nn ix iy jx jy = true ->
+  In ((ix, iy), (jx, jy)) (dedges r c).
+Proof.
+  intros. unfold dedges. apply filter_In. split; [|cbn; assumption].
+  apply in_prod; apply coords_in; assumption.
+Qed.
+
+Lemma shapes_in m r c : 1 <= r <= m -> 1 <= c <= m -> In (r, c) (shapes_upto m).
+Proof.
+  intros Hr Hc. unfold shapes_upto. apply in_flat_map. exists r. split.
+  - replace r with (1 + (r - 1)) by ring. apply in_map. apply zrange_in. lia.
+  - apply in_map. replace c with (1 + (c - 1)) by ring. apply in_map. apply zrange_in. lia.
+Qed.
+
+Lemma shape_ok_bounded r c : 1 <= r <= 6 -> 1 <= c <= 6 -> rel_ok r c = true /\ loops_ok r c = true.
+Proof.
+  intros Hr Hc. pose proof sweep_upto_6 as S. rewrite forallb_forall in S.
+  specialize (S (r, c) (shapes_in 6 r c Hr Hc)). unfold shape_ok in S. cbn [fst snd] in S.
+  apply andb_true_iff in S. exact S.
+Qed.
+
+Lemma otest_true {A} (o : option A) f : otest o f = true -> exists a, o = Some a /\ f a = true.
+Proof. destruct o as [a|]; cbn; [|discriminate]. intros H. exists a. auto. Qed.
+
+(* ------------------------------------------------------------------------------------ *)
+(** * relation set R: edge-edge relations (the edge-vertex ones hold for every shape, see
+      CompactProofs.edge_vertex_commutation) *)
+
+Lemma edge_some_in r c ix iy jx jy E : m_edge r c ix iy jx jy = Some E ->
+  In ((ix, iy), (jx, jy)) (dedges r c).
+Proof.
+  intros H. destruct (edge_inv _ _ _ _ _ _ _ H) as [ii [jj [ff [NN [Ri [Rj _]]]]]].
+  apply ravel_some in Ri, Rj. apply dedges_in; try lia. exact NN.
+Qed.
+
+(** {E_ij, E_jk} = 0 for edges sharing exactly one vertex, [E_ij, E_kl] = 0 for disjoint edges
+    (and for an edge with itself or its reverse) *)
+Theorem R_edge_edge_bounded r c : 1 <= r <= 6 -> 1 <= c <= 6 ->
+  forall ix iy jx jy kx ky lx ly E E',
+    m_edge r c ix iy jx jy = Some E -> m_edge r c kx ky lx ly = Some E' ->
+    pcommutes E E' = negb (Nat.eqb (shared ((ix, iy), (jx, jy)) ((kx, ky), (lx, ly))) 1).
+Proof.
+  intros Hr Hc ix iy jx jy kx ky lx ly E E' HE HE'.
+  destruct (shape_ok_bounded r c Hr Hc) as [R _]. unfold rel_ok in R.
+  apply andb_true_iff in R. destruct R as [_ R]. rewrite forallb_forall in R.
+  specialize (R _ (edge_some_in _ _ _ _ _ _ _ HE)). unfold edge_ok in R.
+  apply otest_true in R. destruct R as [E0 [E0e R]]. unfold Eof in E0e. cbn [fst snd] in E0e.
+  rewrite HE in E0e. injection E0e as <-.
+  apply andb_true_iff in R. destruct R as [_ R]. rewrite forallb_forall in R.
+  specialize (R _ (edge_some_in _ _ _ _ _ _ _ HE')).
+  apply otest_true in R. destruct R as [E1 [E1e R]]. unfold Eof in E1e. cbn [fst snd] in E1e.
+  rewrite HE' in E1e. injection E1e as <-. apply Bool.eqb_prop in R. exact R.
+Qed.
+
+(** E_ij^2 = 1 on strings (the general statement for any Hermitian string is pmul_self below) *)
+Lemma bxor_self a : bxor a a = falses (length a).
+Proof. induction a as [|x a IH]; [reflexivity|]. rewrite bxor_cons, IH, xorb_nilpotent. reflexivity. Qed.
+
+Lemma pmul_self n p : wfp n p -> pq p mod 2 = 0 ->
+  pmul p p = pidentity (Z.of_nat n).
+Proof.
+  intros [Hz Hx] Hq. unfold pmul, pidentity, qprod. rewrite !bxor_self, Hz, Hx, Nat2Z.id, falses_dot.
+  f_equal. rewrite (dotz_comm (px p) (pz p)).
+  set (A := dotz (pz p) (px p)). clearbody A.
+  Ltac Zify.zify_post_hook ::= Z.to_euclidean_division_equations.
+  lia.
+Qed.
+
+(* ------------------------------------------------------------------------------------ *)
+(** * loop products *)
+
+Lemma omul_some a b p : omul a b = Some p -> exists u v, a = Some u /\ b = Some v /\ p = pmul u v.
+Proof. destruct a as [u|], b as [v|]; cbn; try discriminate. intros H; injection H as <-. exists u, v. auto. Qed.
+
+Lemma loop_var_inv r c x y s d Lp : loop_var r c x y s d = Some Lp ->
+  exists E1 E2 E3 E4,
+    wfp (nq r c) E1 /\ wfp (nq r c) E2 /\ wfp (nq r c) E3 /\ wfp (nq r c) E4 /\
+    Lp = pmul (pmul (pmul E1 E2) E3) E4 /\
+    let v k := corner x y (if d then s + k else s + 4 - k)%nat in
+    Eof r c (v 0%nat, v 1%nat) = Some E1 /\ Eof r c (v 1%nat, v 2%nat) = Some E2 /\
+    Eof r c (v 2%nat, v 3%nat) = Some E3 /\ Eof r c (v 3%nat, v 4%nat) = Some E4.
+Proof.
+  unfold loop_var. cbv zeta. intros H.
+  apply omul_some in H. destruct H as [u3 [E4 [H [H4 ->]]]].
+  apply omul_some in H. destruct H as [u2 [E3 [H [H3 ->]]]].
+  apply omul_some in H. destruct H as [E1 [E2 [H1 [H2 ->]]]].
+  exists E1, E2, E3, E4.
+  repeat split; auto; try (eapply edge_wf; unfold Eof in *; eassumption).
+Qed.
+
+Lemma loop_var_wf r c x y s d Lp : loop_var r c x y s d = Some Lp -> wfp (nq r c) Lp.
+Proof.
+  intros H. destruct (loop_var_inv _ _ _ _ _ _ _ H) as [E1 [E2 [E3 [E4 [W1 [W2 [W3 [W4 [-> _]]]]]]]]].
+  repeat apply pmul_wf; assumption.
+Qed.
+
+Lemma loop_wf r c x y Lp : loop r c x y = Some Lp -> wfp (nq r c) Lp.
+Proof. exact (loop_var_wf r c x y 0%nat true Lp). Qed.
+
+Lemma faces_in r c x y : 0 <= x < r - 1 -> 0 <= y < c - 1 -> In (x, y) (faces r c).
+Proof. intros. unfold faces. apply coords_in; assumption. Qed.
+Lemma faces_in_inv r c x y : In (x, y) (faces r c) -> 0 <= x < r - 1 /\ 0 <= y < c - 1.
+Proof.
+  unfold faces, coords. intros H. apply in_flat_map in H. destruct H as [x' [Hx H]].
+  apply in_map_iff in H. destruct H as [y' [E Hy]]. injection E as -> ->.
+  split; apply zrange_in_inv; assumption.
+Qed.
+
+Lemma nq_nsites r c : 1 <= r -> 1 <= c -> Z.of_nat (nq r c) = m_nsites r c.
+Proof. intros Hr Hc. unfold nq. pose proof (nsites_ge r c Hr Hc). nia. Qed.
+
+(** the loop product around every face, on strings:
+    - does not depend on the starting corner nor on the direction;
+    - is the identity string on faces with an auxiliary qubit ((x + y) even);
+    - elsewhere is a non-trivial Hermitian involution commuting with every other loop product and
+      with every string the encoder can insert on this shape *)
+Theorem loops_bounded r c : 1 <= r <= 6 -> 1 <= c <= 6 ->
+  forall x y, 0 <= x < r - 1 -> 0 <= y < c - 1 ->
+  exists Lp, loop r c x y = Some Lp /\ wfp (nq r c) Lp /\
+    (forall s d, (s < 4)%nat -> loop_var r c x y s d = Some Lp) /\
+    (is_aux x y = true -> Lp = pidentity (m_nsites r c)) /\
+    (is_aux x y = false ->
+       pherm Lp = true /\ pmul Lp Lp = pidentity (m_nsites r c) /\ nontrivial Lp = true /\
+       (forall x' y' Lp', 0 <= x' < r - 1 -> 0 <= y' < c - 1 -> loop r c x' y' = Some Lp' ->
+                          pcommutes Lp Lp' = true) /\
+       (forall t p, In t (term_strings r c) -> t = Some p -> pcommutes p Lp = true)).
+Proof.
+  intros Hr Hc x y Hx Hy.
+  destruct (shape_ok_bounded r c Hr Hc) as [_ R]. unfold loops_ok in R. rewrite forallb_forall in R.
+  specialize (R _ (faces_in r c x y Hx Hy)). unfold face_ok in R.
+  apply otest_true in R. destruct R as [Lp [HL R]]. exists Lp.
+  apply andb_true_iff in R. destruct R as [Rv R].
+  split; [exact HL|]. split; [exact (loop_wf r c x y Lp HL)|]. split; [|split].
+  - intros s d Hs. rewrite forallb_forall in Rv.
+    assert (Hin : In s [0; 1; 2; 3]%nat) by (cbn; lia).
+    specialize (Rv s Hin). rewrite forallb_forall in Rv.
+    assert (Hd : In d [true; false]) by (destruct d; cbn; auto).
+    specialize (Rv d Hd). apply otest_true in Rv. destruct Rv as [L' [E' Q]].
+    apply peqb_eq in Q. subst L'. exact E'.
+  - intros A. rewrite A in R. apply peqb_eq in R. exact R.
+  - intros A. rewrite A in R.
+    apply andb_true_iff in R. destruct R as [R R5]. apply andb_true_iff in R. destruct R as [R R4].
+    apply andb_true_iff in R. destruct R as [R R3]. apply andb_true_iff in R. destruct R as [R1 R2].
+    split; [exact R1|]. split; [apply peqb_eq; exact R2|]. split; [exact R3|]. split.
+    + intros x' y' Lp' Hx' Hy' HL'. rewrite forallb_forall in R4.
+      specialize (R4 _ (faces_in r c x' y' Hx' Hy')). cbn [fst snd] in R4. rewrite HL' in R4. exact R4.
+    + intros t p Ht ->. rewrite forallb_forall in R5. exact (R5 _ Ht).
+Qed.
+
+(* ------------------------------------------------------------------------------------ *)
+(** * the same at the level of matrices (every commutative *-ring with i*i = -1) *)
+Section Matrices.
+  Context {K : Scalar} {L : ScalarLaws K}.
+  Local Open Scope K_scope.
+  Add Ring KringCb : (s_ring K L).
+
+  Definition commM (n : nat) (A B : BMx K) : Prop := meq n (mmul n A B) (mmul n B A).
+
+  (** every string the encoder can insert is well-formed *)
+  Lemma term_strings_wf r c t p : In t (term_strings r c) -> t = Some p -> wfp (nq r c) p.
+  Proof.
+    unfold term_strings. intros H ->. apply in_app_or in H. destruct H as [H|H].
+    - apply in_map_iff in H. destruct H as [i [H _]].
+      destruct (vertex_at_some _ _ _ _ H) as [x [y [_ HV]]]. apply (vertex_wf _ _ _ _ _ HV).
+    - destruct H as [H|H]; [injection H as <-; apply pidentity_wf|].
+      apply in_flat_map in H. destruct H as [[i j] [_ H]]. unfold hop_strings in H. cbn [fst snd] in H.
+      destruct H as [H|[H|[]]]; apply omul_some in H; destruct H as [E [V [HE [HV ->]]]];
+        destruct (edge_at_some _ _ _ _ _ HE) as [ix [iy [jx [jy [_ [_ HE']]]]]];
+        destruct (vertex_at_some _ _ _ _ HV) as [x [y [_ HV']]];
+        apply pmul_wf; [apply (edge_wf _ _ _ _ _ _ _ HE')|apply (vertex_wf _ _ _ _ _ HV')
+                       |apply (edge_wf _ _ _ _ _ _ _ HE')|apply (vertex_wf _ _ _ _ _ HV')].
+  Qed.
+
+  (** the matrix of a loop string is the product of the four edge-operator matrices around the face *)
+  Theorem loop_matrix_is_product r c x y Lp : loop r c x y = Some Lp ->
+    exists E1 E2 E3 E4,
+      Eof r c ((x, y), (x, y + 1))%Z = Some E1 /\ Eof r c ((x, y + 1), (x + 1, y + 1))%Z = Some E2 /\
+      Eof r c ((x + 1, y + 1), (x + 1, y))%Z = Some E3 /\ Eof r c ((x + 1, y), (x, y))%Z = Some E4 /\
+      meq (K:=K) (nq r c) (pmatrix Lp)
+          (mmul (nq r c) (mmul (nq r c) (mmul (nq r c) (pmatrix E1) (pmatrix E2)) (pmatrix E3)) (pmatrix E4)).
+  Proof.
+    intros H. destruct (loop_var_inv r c x y 0%nat true Lp H) as [E1 [E2 [E3 [E4 [W1 [W2 [W3 [W4 [-> [A [B [C D]]]]]]]]]]]].
+    cbn in A, B, C, D. exists E1, E2, E3, E4. repeat split; auto.
+    set (n := nq r c) in *.
+    eapply meq_trans; [apply (pmul_matrix n); [repeat apply pmul_wf; assumption|assumption]|].
+    apply mmul_meq; [|apply meq_refl].
+    eapply meq_trans; [apply (pmul_matrix n); [apply pmul_wf; assumption|assumption]|].
+    apply mmul_meq; [|apply meq_refl]. apply (pmul_matrix n); assumption.
+  Qed.
+
+  (** loop products as matrices *)
+  Theorem loop_matrices_bounded r c : (1 <= r <= 6)%Z -> (1 <= c <= 6)%Z ->
+    forall x y, (0 <= x < r - 1)%Z -> (0 <= y < c - 1)%Z ->
+    exists Lp, loop r c x y = Some Lp /\
+      (is_aux x y = true -> meq (K:=K) (nq r c) (pmatrix Lp) mid) /\
+      (is_aux x y = false ->
+         hermitian (K:=K) (nq r c) (pmatrix Lp) /\
+         meq (K:=K) (nq r c) (mmul (nq r c) (pmatrix Lp) (pmatrix Lp)) mid /\
+         (forall x' y' Lp', (0 <= x' < r - 1)%Z -> (0 <= y' < c - 1)%Z -> loop r c x' y' = Some Lp' ->
+                            commM (nq r c) (pmatrix Lp) (pmatrix Lp'))).
+  Proof.
+    intros Hr Hc x y Hx Hy.
+    destruct (loops_bounded r c Hr Hc x y Hx Hy) as [Lp [HL [W [_ [A B]]]]].
+    exists Lp. split; [exact HL|]. split.
+    - intros Ha. rewrite (A Ha). intros rr cc Hrr Hcc. apply pidentity_matrix; unfold nq in *; assumption.
+    - intros Ha. destruct (B Ha) as [B1 [B2 [_ [B4 _]]]]. split; [|split].
+      + apply pherm_sound. exact B1.
+      + eapply meq_trans; [apply meq_sym; apply (pmul_matrix (nq r c)); assumption|].
+        rewrite B2. intros rr cc Hrr Hcc. apply pidentity_matrix; unfold nq in *; assumption.
+      + intros x' y' Lp' Hx' Hy' HL'. apply pcommutes_sound; auto.
+        * apply (loop_wf r c x' y' Lp' HL').
+        * apply (B4 x' y' Lp' Hx' Hy' HL').
+  Qed.
+
+  (** the encoded operator commutes with the loop product around every face *)
+  Theorem encoded_commutes_with_loops_bounded r c : (1 <= r <= 6)%Z -> (1 <= c <= 6)%Z ->
+    forall (half : K) isz symb (hs : list (coeffs (K:=K))) op,
+      encode half isz symb r c hs = Some op ->
+      forall x y Lp, (0 <= x < r - 1)%Z -> (0 <= y < c - 1)%Z -> loop r c x y = Some Lp ->
+        commM (nq r c) (opmatrix op) (pmatrix Lp).
+  Proof.
+    intros Hr Hc half isz symb hs op H x y Lp Hx Hy HL.
+    destruct (loops_bounded r c Hr Hc x y Hx Hy) as [Lp0 [HL0 [W [_ [A B]]]]].
+    rewrite HL in HL0. injection HL0 as <-.
+    apply opmatrix_commutes; [exact W|].
+    apply (encode_strings half isz symb (fun p => wfp (nq r c) p /\ pcommutes p Lp = true) r c hs op); [|exact H].
+    intros t p Ht Hp. split; [exact (term_strings_wf r c t p Ht Hp)|].
+    destruct (is_aux x y) eqn:Ha.
+    - rewrite (A eq_refl). unfold pcommutes, pidentity. cbn [pz px].
+      unfold dotz. rewrite !dotnat_falses_r. reflexivity.
+    - destruct (B eq_refl) as [_ [_ [_ [_ B5]]]]. exact (B5 t p Ht Hp).
+  Qed.
+End Matrices.
